@@ -730,3 +730,353 @@ Theorem C07_codegen_simulates_cf_example_runs :
   fst (run_a64 10 2000 exc_code [-30]) = ([], OExit (-213)).
 Proof. exact exc_runs. Qed.
 Print Assumptions C07_codegen_simulates_cf_example_runs.
+
+(* ======================================================================================== *)
+(* HEAP statements on AArch64: Let / Switch / Create with captured variables / Invoke /       *)
+(* Substitute on objects - and the program-level theorem for ALL statement forms (sim64b)     *)
+(* ======================================================================================== *)
+(* Port of the x86-64 development of C06 (docs/C06.md, section "Heap statements"); everything back-end independent is
+   SHARED, not copied: the abstract allocator and the heap-instrumented machine (Sem/AxHeap.v, C09), the agreement `heq`
+   up to zero padding, the bridge from the allocator invariant InvA (`alloc_object_bridge`, `hdr_bounds_x`,
+   `load_ptrs`/`obj_fields_words`, Proof/X86HBridge.v, X86HFrame.v, X86HeapCongr.v - files named X86 for historical reasons
+   only), the invariant `hinv` of a run, `ann_check` and `heap_fits`/`fits_run`.  The representation of values in heap
+   words is the new shared Proof/HRep.v (`xrep` parametrised by the jump-table stride - 4 here, 5 on x86-64 - and by what
+   is recorded of integers - `in64` here).  AArch64-specific: the refinement of the allocator code (C09_a64_*,
+   Proof/A64Mem*.v), the relation `hrel` (Proof/A64HSimRel.v: SP = sp = 0 mod 16, HEAP = X0, FREE = X1, positions 0-12 in
+   X(2i+4)/X(2i+5), spill slots after), the statement lemmas (Proof/A64HSim*.v) and the layout of clause code
+   (Proof/A64HLayout.v: an indirect branch lands on the first REAL instruction at the target address).
+   `hclo_ok im p a tn cls cenv`: the data word a of a closure is the address of its label; for clause k the landing index
+   of a (+ 4k for a table entry) continues every run of the clause's code (load of the captured environment + body,
+   compiled in cl_ctx ++ cenv, lin_check'ed, ann_check'ed, 64-bit literals). *)
+From SCC Require Import Model.Linearize Model.LinCheck Sem.AxHeap Proof.A64Mem Proof.HRep Proof.A64HSimRel Proof.A64HSimStore Proof.A64HSimLoad Proof.A64HSimSubst
+     Proof.A64HLayout Proof.X86HAnn Proof.X86HAnnLin Proof.A64HBridge Proof.A64HSimHeapB Proof.A64HSimHeapC Proof.A64HSimProgA Proof.A64HSimProg
+     Proof.A64HSimTop Proof.A64HSimCor Proof.A64HSimExample Proof.AxHeapExample.
+From SCC Require Model.Heap Proof.HeapRep Proof.AxHeapTyping Proof.X86HSimExample.
+Import Sem.AxHeap.
+Open Scope Z_scope.
+Open Scope list_scope.
+
+(* reading an integer operand under the heap-aware relation `hrel` (Proof/A64HSimRel.v): its second temporary holds the 64-bit value *)
+Theorem C07_heap_rel_reads :
+  forall (types : list tydecl) (CLO : Z -> ident -> list clause -> ctx -> Prop) (c : ctx) (he : henv) 
+      (hs : Heap.st) (s : astate) (sp : Z) (a : ident) (x : Z),
+    hrel types CLO c he hs s sp ->
+    lookup_int (erase_env he) a = Some x ->
+    exists (i : nat) (b : binding) (t : atemp),
+      nth_error c i = Some b /\
+      idn (bvar b) = idn a /\ SubstGraph.tpos a64_backend Snd i = Ok t /\ lget s sp t = Some x /\ A64Imm.in64 x.
+Proof. exact hrel_lookup. Qed.
+Print Assumptions C07_heap_rel_reads.
+
+(* BRIDGE, the AArch64-only part (the rest - `alloc_object_pre`, acquired blocks, header bounds, `xrep_frame` - is shared with C06, theorems C06_heap_bridge_...): along the chain of allocations of one object the header of the reserved block is a 64-bit value *)
+Theorem C07_heap_bridge_hdr64 :
+  forall (fields : list Z) (a s : Heap.st) (R R0 hl fl cl : list Z),
+    InvA HB s R hl fl cl ->
+    heq a s ->
+    P3 s ->
+    Permutation.Permutation R (Heap.nz fields ++ R0) ->
+    fields <> nil ->
+    Z.of_nat (Datatypes.length R) < 1048576 ->
+    Heap.frontier (snd (Heap.alloc_object fields s)) + 64 <= LIMIT -> A64MemStoreChain.alloc_object_hdr64 fields a.
+Proof. exact alloc_object_hdr64_bridge. Qed.
+Print Assumptions C07_heap_bridge_hdr64.
+
+(* the AArch64 counterpart of x86-64's `back_ok`: in an image whose every placed instruction is followed (through labels only) by a real instruction, the address of ANY placed index has a landing index, and every run from the index continues from it *)
+Theorem C07_image_forward_landing :
+  forall im : image,
+    img_ok im ->
+    fwd_ok im ->
+    forall (pc : PM.key) (c : acode) (a : Z),
+    PM.find pc (code im) = Some c ->
+    PM.find pc (addr_of im) = Some a ->
+    exists i : positive,
+      PM.find (key a) (index_at im) = Some i /\ (forall (s : astate) (o : obs), finishes im pc s o -> finishes im i s o).
+Proof. exact fwd_land. Qed.
+Print Assumptions C07_image_forward_landing.
+
+(* ... which holds for every compiled routine: it ends with the RET of `cleanup` *)
+Theorem C07_image_forward :
+  forall (is : list acode) (n : nat) (cs : list acode), into_aarch64_routine is n = Ok cs -> fwd_ok (mk_image cs).
+Proof. exact routine_image_fwd. Qed.
+Print Assumptions C07_image_forward.
+
+(* Let: a_store (any number of fields, block chains, new block pointers in registers or spill slots) + the tag word 4k *)
+Theorem C07_sim_let :
+  forall (im : image) (p : prog),
+    (forall d : tydecl, In d (ptypes p) -> Z.of_nat (Datatypes.length (txtors d)) < 2305843009213693952) ->
+    forall (c : ctx) (he : henv) (hs : Heap.st) (s : astate) (sp : Z) (v : ident) (t : ty) (tag : ident) 
+      (args : ctx) (next : stmt) (lc : N) (code : list acode) (lc' : N) (pc : positive) (he0 fs : list hentry) 
+      (tn : ident) (hl fl cl : list Z),
+    hrel (ptypes p) (hclo_ok im p) c he hs s sp ->
+    lin_check (sigs_of p) c (Let v t tag args next) = true ->
+    acs (ptypes p) (Let v t tag args next) c lc = Ok (code, lc') ->
+    code_at im pc code ->
+    labels_at_nh im pc code ->
+    ty_name t = Some tn ->
+    AxSem.split_last (Datatypes.length args) he = Some (he0, fs) ->
+    InvA HB hs (roots he) hl fl cl ->
+    P03 hs ->
+    (forall en : hentry, In en he -> chi_of (h_val en) = Ext -> h_ptr en = 0) ->
+    let res0 := Heap.alloc_object (map store_ptr fs) hs in
+    Heap.frontier (snd res0) + 64 <= LIMIT ->
+    Heap.heap (snd res0) <> 0 ->
+    Heap.free (snd res0) <> 0 ->
+    let c0 := firstn (Datatypes.length c - Datatypes.length args) c in
+    exists (c12 c3 : list acode) (lc1 : N) (s' : astate),
+      code = c12 ++ c3 /\
+      acs (ptypes p) next (c0 ++ {| bvar := v; bchi := Prd; bty := t |} :: nil) lc1 = Ok (c3, lc') /\
+      lin_check (sigs_of p) (c0 ++ {| bvar := v; bchi := Prd; bty := t |} :: nil) next = true /\
+      exec_to im pc s (padd pc (Datatypes.length c12)) s' /\
+      hrel (ptypes p) (hclo_ok im p) (c0 ++ {| bvar := v; bchi := Prd; bty := t |} :: nil)
+        (he0 ++ (v, VObj tn tag (map h_val fs), fst res0) :: nil) (snd res0) s' sp /\ hframe_eq s s' sp.
+Proof. exact hsim_let. Qed.
+Print Assumptions C07_sim_let.
+
+(* Switch: fall-through (one clause) or ADR / ADD / BR to table entry k, then a_load of the fields (Release or Share by the header test) *)
+Theorem C07_sim_switch :
+  forall (im : image) (p : prog),
+    img_ok im ->
+    (forall (pc : PM.key) (a : Z), PM.find pc (addr_of im) = Some a -> a < 4611686018427387904) ->
+    forall (c : ctx) (he : henv) (hs : Heap.st) (s : astate) (sp : Z) (v : ident) (t : ty) (cls : list (ident * ctx * stmt))
+      (lc : N) (code : list acode) (lc' : N) (pc : positive) (he0 : list hentry) (x tn tag : ident) 
+      (fs : list value) (q : Z) (cl : clause) (e1 : env) (lk : HeapRep.lkmap) (hl fl cl0 : list Z),
+    hrel (ptypes p) (hclo_ok im p) c he hs s sp ->
+    lin_check (sigs_of p) c (Switch v t cls) = true ->
+    acs (ptypes p) (Switch v t cls) c lc = Ok (code, lc') ->
+    code_at im pc code ->
+    labels_at_nh im pc code ->
+    (forall lcx : N, X86Wf.is_hash_label (type_label t lcx) = false) ->
+    AxSem.split_last 1 he = Some (he0, (x, VObj tn tag fs, q) :: nil) ->
+    find_clause cls tag = Some cl ->
+    bind (vars (cl_ctx cl)) fs = Some e1 ->
+    InvA HB hs (roots he) hl fl cl0 ->
+    P03 hs ->
+    Heap.frontier hs <= LIMIT ->
+    (fs <> nil -> HeapRep.rep_flds lk (Heap.m hs) fs q) ->
+    let c0 := removelast c in
+    exists (pcb : positive) (lcb : N) (cb : list acode) (lcb' : N) (s' : astate),
+      exec_to im pc s pcb s' /\
+      acs (ptypes p) (cl_body cl) (c0 ++ cl_ctx cl) lcb = Ok (cb, lcb') /\
+      code_at im pcb cb /\
+      labels_at_nh im pcb cb /\
+      lin_check (sigs_of p) (c0 ++ cl_ctx cl) (cl_body cl) = true /\
+      hrel (ptypes p) (hclo_ok im p) (c0 ++ cl_ctx cl) (he0 ++ attach e1 (load_ptrs hs (Datatypes.length (cl_ctx cl)) q))
+        (hrun (load_ops (Datatypes.length (cl_ctx cl)) q) hs) s' sp /\ hframe_eq s s' sp.
+Proof. exact hsim_switch. Qed.
+Print Assumptions C07_sim_switch.
+
+(* Create with captured variables: a_store of the captured environment + ADR of the clause code; establishes `hclo_ok` for the new closure *)
+Theorem C07_sim_create_captured :
+  forall (im : image) (p : prog),
+    img_ok im ->
+    fwd_ok im ->
+    (forall (pc : PM.key) (a : Z), PM.find pc (addr_of im) = Some a -> a < 4611686018427387904) ->
+    forall (c : ctx) (he : henv) (hs : Heap.st) (s : astate) (sp : Z) (v : ident) (t : ty) (env0 : ctx)
+      (cls : list (ident * ctx * stmt)) (next : stmt) (lc : N) (code : list acode) (lc' : N) (pc : positive)
+      (he0 cap : list hentry) (tn : ident) (ce : env) (hl fl cl : list Z),
+    hrel (ptypes p) (hclo_ok im p) c he hs s sp ->
+    lin_check (sigs_of p) c (Create v t (Some env0) cls next) = true ->
+    skipn (Datatypes.length c - Datatypes.length env0) c = env0 ->
+    ann_clauses_cr env0 cls = true ->
+    clauses_lits cls = true ->
+    acs (ptypes p) (Create v t (Some env0) cls next) c lc = Ok (code, lc') ->
+    code_at im pc code ->
+    labels_at_nh im pc code ->
+    (forall lcx : N, X86Wf.is_hash_label (type_label t lcx) = false) ->
+    ty_name t = Some tn ->
+    AxSem.split_last (Datatypes.length env0) he = Some (he0, cap) ->
+    bind (vars env0) (map h_val cap) = Some ce ->
+    InvA HB hs (roots he) hl fl cl ->
+    P03 hs ->
+    (forall en : hentry, In en he -> chi_of (h_val en) = Ext -> h_ptr en = 0) ->
+    let res0 := Heap.alloc_object (map store_ptr cap) hs in
+    Heap.frontier (snd res0) + 64 <= LIMIT ->
+    Heap.heap (snd res0) <> 0 ->
+    Heap.free (snd res0) <> 0 ->
+    let c0 := firstn (Datatypes.length c - Datatypes.length env0) c in
+    exists (c12 c3 : list acode) (lc2 lc3 : N) (rest' : list acode) (s' : astate),
+      code = c12 ++ c3 ++ rest' /\
+      acs (ptypes p) next (c0 ++ {| bvar := v; bchi := Cns; bty := t |} :: nil) lc2 = Ok (c3, lc3) /\
+      lin_check (sigs_of p) (c0 ++ {| bvar := v; bchi := Cns; bty := t |} :: nil) next = true /\
+      exec_to im pc s (padd pc (Datatypes.length c12)) s' /\
+      hrel (ptypes p) (hclo_ok im p) (c0 ++ {| bvar := v; bchi := Cns; bty := t |} :: nil)
+        (he0 ++ (v, VClo tn cls ce, fst res0) :: nil) (snd res0) s' sp /\ hframe_eq s s' sp.
+Proof. exact hsim_create. Qed.
+Print Assumptions C07_sim_create_captured.
+
+(* Invoke: BR / ADD #4k; BR to the closure (through X2 when spilled); the indirect branch lands on the first real instruction at the address, so the continuation is in `finishes`-form; then a_load of the captured environment *)
+Theorem C07_sim_invoke_captured :
+  forall (im : image) (p : prog) (c : ctx) (he : henv) (hs : Heap.st) (s : astate) (sp : Z) (v tag : ident) 
+      (t : ty) (args : ctx) (cd : list acode) (lc lc' : N) (pc : positive) (he0 : list hentry) (x tn : ident)
+      (cls : list clause) (ce : list (ident * value)) (q : Z) (cl : clause) (e1 : env) (lk : HeapRep.lkmap)
+      (hl fl cl0 : list Z),
+    hrel (ptypes p) (hclo_ok im p) c he hs s sp ->
+    AxSem.split_last 1 he = Some (he0, (x, VClo tn cls ce, q) :: nil) ->
+    find_clause cls tag = Some cl ->
+    bind (vars (cl_ctx cl)) (map snd (erase_env he0)) = Some e1 ->
+    lin_check (sigs_of p) c (Invoke v tag t args) = true ->
+    acs (ptypes p) (Invoke v tag t args) c lc = Ok (cd, lc') ->
+    code_at im pc cd ->
+    InvA HB hs (roots he) hl fl cl0 ->
+    P03 hs ->
+    Heap.frontier hs <= LIMIT ->
+    (ce <> nil -> HeapRep.rep_flds lk (Heap.m hs) (map snd ce) q) ->
+    exists (pcb : positive) (lcb : N) (cb : list acode) (lcb' : N) (s' : astate),
+      (forall o : obs, finishes im pcb s' o -> finishes im pc s o) /\
+      acs (ptypes p) (cl_body cl) (cl_ctx cl ++ ctx_of_env ce) lcb = Ok (cb, lcb') /\
+      code_at im pcb cb /\
+      labels_at_nh im pcb cb /\
+      lin_check (sigs_of p) (cl_ctx cl ++ ctx_of_env ce) (cl_body cl) = true /\
+      ann_check (cl_ctx cl ++ ctx_of_env ce) (cl_body cl) = true /\
+      stmt_lits (cl_body cl) = true /\
+      hrel (ptypes p) (hclo_ok im p) (cl_ctx cl ++ ctx_of_env ce)
+        (attach e1 (ptrs he0) ++ attach ce (load_ptrs hs (Datatypes.length ce) q))
+        (hrun (load_ops (Datatypes.length ce) q) hs) s' sp /\ hframe_eq s s' sp.
+Proof. exact hsim_invoke. Qed.
+Print Assumptions C07_sim_invoke_captured.
+
+(* Substitute with objects: erase / share in the order of the instrumented machine's `subst_ops`, then the parallel moves *)
+Theorem C07_sim_substitute_objects :
+  forall (im : image) (types : list tydecl) (CLO : Z -> ident -> list clause -> ctx -> Prop) (c : ctx) 
+      (he : henv) (hs : Heap.st) (s : astate) (sp : Z) (re : list (binding * ident)) (he' : henv) 
+      (c1 : list acode) (lc lc1 : N) (c2 : list acode) (pc : positive) (hl fl cl : list Z),
+    hrel types CLO c he hs s sp ->
+    NoDup (SubstGraph.new_ids re) ->
+    (forall q : binding * ident, In q re -> has c (snd q) (bchi (fst q)) (bty (fst q)) = true) ->
+    hsubst he re = Some he' ->
+    ctx_of he = c ->
+    InvA HB hs (roots he) hl fl cl ->
+    P03 hs ->
+    Heap.frontier hs <= LIMIT ->
+    code_weakening_contraction a64_backend (transpose re c) c lc = Ok (c1, lc1) ->
+    code_exchange a64_backend (transpose re c) c (map fst re) = Ok c2 ->
+    code_at im pc (c1 ++ c2) ->
+    labels_at_nh im pc (c1 ++ c2) ->
+    exists s' : astate,
+      exec_to im pc s (padd pc (Datatypes.length (c1 ++ c2))) s' /\
+      hrel types CLO (map fst re) he' (hrun (subst_ops he re) hs) s' sp /\ hframe_eq s s' sp.
+Proof. exact hsim_substitute. Qed.
+Print Assumptions C07_sim_substitute_objects.
+
+(* the induction over the fuel of the instrumented machine, all eleven statement forms, progress included *)
+Theorem C07_sim_exec_heap :
+  forall (im : image) (p : prog) (sp : Z) (st0 : PM.t Z),
+    img_ok im ->
+    fwd_ok im ->
+    (forall (pc : PM.key) (a : Z), PM.find pc (addr_of im) = Some a -> a < 4611686018427387904) ->
+    (forall d : tydecl, In d (ptypes p) -> Z.of_nat (Datatypes.length (txtors d)) < 2305843009213693952) ->
+    (forall d : tydecl, In d (ptypes p) -> X86Wf.is_hash_label (label_of_type_name (show_ident (tname d))) = false) ->
+    (forall d : def,
+     In d (pdefs p) ->
+     exists (pcd : positive) (lcd : N) (cd : list acode) (lcd' : N),
+       find_label (labels im) (show_ident (dname d) +++ "_") = Some pcd /\
+       PM.find pcd (code im) = Some (LAB (show_ident (dname d) +++ "_")) /\
+       acs (ptypes p) (dbody d) (dctx d) lcd = Ok (cd, lcd') /\
+       code_at im (Pos.succ pcd) cd /\ labels_at_nh im (Pos.succ pcd) cd) ->
+    (exists pcc : positive,
+       find_label (labels im) "cleanup" = Some pcc /\
+       (forall (s : astate) (z : Z),
+        frame_ok s sp -> outer_ok st0 sp s -> rget s RETURN1 = Some z -> finishes im pcc s (finish (out s) (OExit z)))) ->
+    lin_check_prog p = true ->
+    ann_check_prog p = true ->
+    (forall d : def, In d (pdefs p) -> stmt_lits (dbody d) = true) ->
+    forall (fuel : nat) (s : stmt) (c : ctx) (he : henv) (hs : Heap.st) (ot : prints) (tr : list Heap.op) 
+      (st : astate) (pc : positive) (code : list acode) (lc lc' : N),
+    lin_check (sigs_of p) c s = true ->
+    ann_check c s = true ->
+    stmt_lits s = true ->
+    acs (ptypes p) s c lc = Ok (code, lc') ->
+    code_at im pc code ->
+    labels_at_nh im pc code ->
+    hrel (ptypes p) (hclo_ok im p) c he hs st sp ->
+    map h_id he = vars c ->
+    hinv p he hs s ->
+    outer_ok st0 sp st ->
+    out st = ot ->
+    not_oof (fst (fst (hexec fuel p {| hc_env := he; hc_heap := hs; hc_stmt := s |} ot tr))) ->
+    finishes im pc st (fst (fst (hexec fuel p {| hc_env := he; hc_heap := hs; hc_stmt := s |} ot tr))).
+Proof. exact hsim_exec. Qed.
+Print Assumptions C07_sim_exec_heap.
+
+(* PROGRAM LEVEL.  Hypotheses as for x86-64 (C06_codegen_simulates_partial): lin_check_prog, ann_check_prog (a theorem for
+   outputs of the linearizer, below), entry_ext, plain names / types, asm_wf (the C14 check of the REAL output), code_small,
+   arity, heap_fits (necessary: the generated code never compares the frontier with the driver's buffer, docs/C06.md);
+   plus the AArch64 64-bit side conditions: lits_i64, args_i64 as for the fragments, and tags_i64 - every type has fewer
+   than 2^61 constructors / destructors (the tag word 4k of a Let is synthesised by MOVZ/MOVK, exact on 64-bit values; the
+   Rust code computes `4 * k` in i64).  `_partial`: ann_check_prog and heap_fits are not C14 checks of the output. *)
+Theorem C07_codegen_simulates_partial :
+  forall (p : prog) (lc : N) (cs : list acode) (n : nat) (lc' : N) (args : list Z) (fuel : nat) (o : obs),
+    lin_check_prog p = true -> ann_check_prog p = true -> AxHeapTyping.entry_ext p = true ->
+    plain_names p = true -> plain_types p = true -> lits_i64 p = true -> tags_i64 p = true ->
+    a64_compile p lc = Ok (cs, n, lc') -> asm_wf cs = None -> code_small cs = true ->
+    List.length args = n -> args_i64 args = true -> heap_fits p args ->
+    run_linear fuel p args = o -> snd o <> OOutOfFuel ->
+    exists outer inner, fst (run_a64 outer inner cs args) = o.
+Proof. exact a64_codegen_simulates. Qed.
+Print Assumptions C07_codegen_simulates_partial.
+
+(* C07_codegen_correct_statement for the compiler's own programs: the linearizer's output is lin_check'ed (C05) and
+   ann_check'ed (C06_linearize_ann) *)
+Theorem C07_codegen_correct_linearized_partial :
+  forall (a : prog) (lc : N) (cs : list acode) (n : nat) (lc' : N) (args : list Z) (fuel : nat) (o : obs),
+    prog_ok a = true ->
+    AxHeapTyping.entry_ext (linearize a) = true -> plain_names (linearize a) = true -> plain_types (linearize a) = true ->
+    lits_i64 (linearize a) = true -> tags_i64 (linearize a) = true ->
+    a64_compile (linearize a) lc = Ok (cs, n, lc') -> asm_wf cs = None -> code_small cs = true ->
+    args_i64 args = true -> heap_fits (linearize a) args ->
+    run_linear fuel (linearize a) args = o -> defined o = true ->
+    exists outer inner, fst (run_a64 outer inner cs args) = o.
+Proof. exact a64_codegen_correct_linearized. Qed.
+Print Assumptions C07_codegen_correct_linearized_partial.
+
+(* heap_fits is the bound of C06 (the ISA models place the heap identically) and is decided by running the instrumented
+   machine *)
+Theorem C07_heap_fits_decided :
+  forall (fuel : nat) (p : prog) (args : list Z), X86HSimExample.fits_run fuel p args = true -> heap_fits p args.
+Proof. exact fits_run_sound. Qed.
+Print Assumptions C07_heap_fits_decided.
+
+(* non-vacuity: the example program of Proof/AxHeapExample.v (lists by Let / Switch, a five-field record in two chained
+   blocks, shared and dropped objects, a closure capturing an integer, two definitions): all hypotheses by evaluation, the
+   theorem applied, both machines evaluated *)
+Theorem C07_codegen_simulates_heap_example_hypotheses :
+  lin_check_prog hx_lin = true /\ ann_check_prog hx_lin = true /\ AxHeapTyping.entry_ext hx_lin = true /\
+  plain_names hx_lin = true /\ plain_types hx_lin = true /\ lits_i64 hx_lin = true /\ tags_i64 hx_lin = true /\
+  (exists lc', a64_compile hx_lin 0 = Ok (hxa_code, 2%nat, lc')) /\ asm_wf hxa_code = None /\ code_small hxa_code = true /\
+  args_i64 (3 :: 100 :: nil) = true /\ X86HSimExample.fits_run 2000 hx_lin (3 :: 100 :: nil) = true.
+Proof. exact hxa_hypotheses. Qed.
+Print Assumptions C07_codegen_simulates_heap_example_hypotheses.
+Theorem C07_codegen_simulates_heap_example_applied :
+  exists outer inner, fst (run_a64 outer inner hxa_code (3 :: 100 :: nil)) = run_linear 2000 hx_lin (3 :: 100 :: nil).
+Proof. exact hxa_simulated. Qed.
+Print Assumptions C07_codegen_simulates_heap_example_applied.
+Theorem C07_codegen_simulates_heap_example_runs :
+  run_linear 2000 hx_lin (3 :: 100 :: nil) = ((true, 106) :: nil, OExit 106) /\
+  fst (run_a64 20 2000 hxa_code (3 :: 100 :: nil)) = ((true, 106) :: nil, OExit 106).
+Proof. exact hxa_runs. Qed.
+Print Assumptions C07_codegen_simulates_heap_example_runs.
+
+(* a second example that crosses the register file: the same loop with twelve more integers carried along (15 variables at
+   the head of the loop): the block pointers of every object it allocates, the fields it loads and the variables it drops
+   live in SPILL SLOTS - acquire_block into a spill slot (`STR X0, [SP, _]`) while the reuse list is non-trivial, loads with
+   the X10 evacuation (`STR X10, [SP, 2040]`); named AxCut linearized by the model of the pass *)
+From SCC Require Import Proof.A64HSimExampleW.
+Theorem C07_codegen_simulates_heap_example_wide_hypotheses :
+  prog_ok hxw_prog = true /\
+  lin_check_prog hxw_lin = true /\ ann_check_prog hxw_lin = true /\ AxHeapTyping.entry_ext hxw_lin = true /\
+  plain_names hxw_lin = true /\ plain_types hxw_lin = true /\ lits_i64 hxw_lin = true /\ tags_i64 hxw_lin = true /\
+  (exists lc', a64_compile hxw_lin 0 = Ok (hxw_code, 2%nat, lc')) /\ asm_wf hxw_code = None /\ code_small hxw_code = true /\
+  args_i64 (3 :: 100 :: nil) = true /\ X86HSimExample.fits_run 4000 hxw_lin (3 :: 100 :: nil) = true.
+Proof. exact hxw_hypotheses. Qed.
+Print Assumptions C07_codegen_simulates_heap_example_wide_hypotheses.
+Theorem C07_codegen_simulates_heap_example_wide_applied :
+  exists outer inner, fst (run_a64 outer inner hxw_code (3 :: 100 :: nil)) = run_linear 4000 hxw_lin (3 :: 100 :: nil).
+Proof. exact hxw_simulated. Qed.
+Print Assumptions C07_codegen_simulates_heap_example_wide_applied.
+Theorem C07_codegen_simulates_heap_example_wide_runs :
+  run_linear 4000 hxw_lin (3 :: 100 :: nil) = ((true, 147) :: nil, OExit 147) /\
+  fst (run_a64 40 4000 hxw_code (3 :: 100 :: nil)) = ((true, 147) :: nil, OExit 147) /\
+  existsb (fun c => match c with STR (X 0) SP _ => true | _ => false end) hxw_code = true /\
+  existsb (fun c => match c with STR (X 10) SP 2040 => true | _ => false end) hxw_code = true.
+Proof. exact hxw_runs. Qed.
+Print Assumptions C07_codegen_simulates_heap_example_wide_runs.
